@@ -6,6 +6,7 @@ import (
 	"github.com/cossacklabs/acra/keystore"
 	"github.com/cossacklabs/acra/zz_verif/verif"
 	"github.com/cossacklabs/acra/zz_verif/vfs"
+	"github.com/cossacklabs/themis/gothemis/keys"
 )
 
 func verifDup(b []byte) []byte { return append([]byte{}, b...) }
@@ -377,4 +378,165 @@ func VerifC18_V1Backup() {
 		dstPub, err2 := ReadDir(dst, pub)
 		verif.Assert(err1 == nil && err2 == nil && len(srcPub) == len(dstPub), "public-directory-has-the-same-files")
 	}
+}
+
+// VerifC06_V1KeyPairAndPoisonRotateDestroy: the same for the key kinds that consist of two files (storage key pair,
+// private and public key directories possibly different) and for the poison symmetric key: newest first, listed index
+// removes exactly that generation, unlisted refused, current untouched.
+func VerifC06_V1KeyPairAndPoisonRotateDestroy() {
+	twoDirs := verif.Choose("dirs", 1, 2) == 2
+	fsys := vfs.New()
+	priv, pub := "/keys", "/keys"
+	if twoDirs {
+		pub = "/pub"
+	}
+	fsys.MkdirAll(priv, 0700)
+	fsys.MkdirAll(pub, 0700)
+	ks, _ := verifStoreIn(fsys, priv, pub, "master")
+	id := []byte("client")
+	poison := verif.Choose("kind", 0, 1) == 1
+	r := 3
+	var gen [][]byte
+	read := func(s *KeyStore) ([][]byte, error) {
+		if poison {
+			return s.GetPoisonSymmetricKeys()
+		}
+		ps, err := s.GetServerDecryptionPrivateKeys(id)
+		var out [][]byte
+		for _, p := range ps {
+			out = append(out, p.Value)
+		}
+		return out, err
+	}
+	for i := 0; i < r; i++ {
+		if poison {
+			verif.Assert(ks.GeneratePoisonSymmetricKey() == nil, "generate")
+		} else {
+			verif.Assert(ks.GenerateDataEncryptionKeys(id) == nil, "generate")
+		}
+		all, err := read(ks)
+		verif.Assert(err == nil && len(all) == i+1, "all-readable")
+		if err != nil || len(all) != i+1 {
+			return
+		}
+		for _, o := range gen {
+			verif.Assume(!verif.Eq(o, all[0]))
+		}
+		gen = append(gen, verifDup(all[0]))
+	}
+	all, err := read(ks)
+	if err != nil || len(all) != r {
+		verif.Assert(false, "all-count")
+		return
+	}
+	for i := 0; i < r; i++ {
+		verif.Assert(verif.Eq(all[i], gen[r-1-i]), "all-newest-first")
+	}
+	var pubBefore []byte
+	if !poison {
+		pk, err := ks.GetClientIDEncryptionPublicKey(id)
+		verif.Assert(err == nil, "public-key-readable")
+		if err == nil {
+			pubBefore = verifDup(pk.Value)
+		}
+	}
+	idx := verif.Choose("index", 0, r+1)
+	if poison {
+		err = ks.DestroyRotatedPoisonSymmetricKey(idx)
+	} else {
+		err = ks.DestroyRotatedClientIDEncryptionKeyPair(id, idx)
+	}
+	verif.Reach("destroy-returned")
+	listed := idx >= 2 && idx-2 < r-1
+	ks2, _ := verifStoreIn(fsys, priv, pub, "master")
+	after, err2 := read(ks2)
+	verif.Assert(err2 == nil, "all-readable-after-destroy")
+	if err2 != nil {
+		return
+	}
+	if listed {
+		verif.Assert(err == nil, "listed-index-destroyed")
+		verif.Assert(len(after) == r-1, "exactly-one-key-removed")
+		for i := 0; i < r; i++ {
+			if i == idx-2 {
+				verif.Assert(!verifContains(after, gen[i]), "chosen-key-removed")
+			} else {
+				verif.Assert(verifContains(after, gen[i]), "other-keys-kept")
+			}
+		}
+	} else {
+		verif.Assert(err != nil, "unlisted-index-refused")
+		verif.Assert(len(after) == r, "nothing-removed")
+	}
+	verif.Assert(len(after) > 0 && verif.Eq(after[0], gen[r-1]), "current-unchanged")
+	if !poison {
+		pk, err := ks2.GetClientIDEncryptionPublicKey(id)
+		verif.Assert(err == nil && verif.Eq(pk.Value, pubBefore), "current-public-key-unchanged")
+	}
+}
+
+// VerifC08_V1KeyPairFault: a key pair lives in two files. Whatever single storage fault (error, crash before, crash
+// after) interrupts its rotation, after a restart the public key that new data would be encrypted with belongs to one
+// of the private keys the store offers for decryption, the pair from before the fault is still usable, and a
+// follow-up rotation is accepted.
+func VerifC08_V1KeyPairFault() {
+	twoDirs := verif.Choose("dirs", 1, 2) == 2
+	fsys := vfs.New()
+	priv, pub := "/keys", "/keys"
+	if twoDirs {
+		pub = "/pub"
+	}
+	fsys.MkdirAll(priv, 0700)
+	fsys.MkdirAll(pub, 0700)
+	faulty := vfs.NewFaulty(fsys)
+	ks, _ := verifStoreIn(faulty, priv, pub, "master")
+	id := []byte("client")
+	if ks.GenerateDataEncryptionKeys(id) != nil {
+		return
+	}
+	p1, err := ks.GetServerDecryptionPrivateKey(id)
+	if err != nil {
+		return
+	}
+	old := verifDup(p1.Value)
+	fa := verif.Choose("fault-at", 0, 11)
+	mode := verif.Choose("fault-mode", 0, 2)
+	faulty.FaultAt = faulty.Calls + fa
+	faulty.FaultMode = mode
+	start := len(faulty.Trace)
+	func() {
+		defer func() {
+			if r := recover(); r != nil {
+				if _, ok := r.(vfs.Crash); ok {
+					return
+				}
+				panic(r)
+			}
+		}()
+		ks.GenerateDataEncryptionKeys(id)
+	}()
+	faulty.FaultAt = -1
+	call := "none"
+	if start+fa < len(faulty.Trace) {
+		call = faulty.Trace[start+fa]
+	}
+	scen := "/" + call + string(rune('a'+fa)) + "/" + []string{"error", "crash-before", "crash-after"}[mode]
+	verif.Reach("after-fault")
+	ks2, _ := verifStoreIn(vfs.NewFaulty(fsys), priv, pub, "master")
+	privs, err := ks2.GetServerDecryptionPrivateKeys(id)
+	verif.Assert(err == nil, "private-keys-readable-after-fault"+scen)
+	pk, err2 := ks2.GetClientIDEncryptionPublicKey(id)
+	verif.Assert(err2 == nil, "public-key-readable-after-fault"+scen)
+	if err != nil || err2 != nil {
+		return
+	}
+	var values [][]byte
+	paired := false
+	for _, p := range privs {
+		values = append(values, p.Value)
+		paired = verif.Or(paired, keys.IsPair(p.Value, pk.Value))
+	}
+	verif.Assert(verifContains(values, old), "old-private-key-still-offered"+scen)
+	verif.Assert(paired, "public-key-has-its-private-key"+scen)
+	verif.Assert(ks2.GenerateDataEncryptionKeys(id) == nil, "follow-up-rotation-accepted"+scen)
 }
